@@ -13,6 +13,7 @@ import (
 	"path/filepath"
 	"regexp"
 	"runtime"
+	"runtime/pprof"
 	"sort"
 	"strconv"
 	"strings"
@@ -145,7 +146,13 @@ func cmdRun(args []string) int {
 	jobs := fs.Int("j", 8, "parallel harnesses")
 	tmo := fs.Duration("t", 10*time.Minute, "per-harness time budget")
 	doReplay := fs.Bool("replay", false, "replay counterexamples and samples natively")
+	prof := fs.String("cpuprofile", "", "write cpu profile")
 	fs.Parse(args)
+	if *prof != "" {
+		f, _ := os.Create(*prof)
+		pprof.StartCPUProfile(f)
+		defer pprof.StopCPUProfile()
+	}
 	t0 := time.Now()
 	p, err := interp.Load(repoDir, filepath.Join(verifDir, "harness"))
 	if err != nil {
